@@ -149,6 +149,9 @@ pub enum Action {
 	ArmCrash { n: usize, at: u64, after: bool },
 	Restart { n: usize, style: u8 },
 	Abandon { n: usize, pay: usize },
+	/// C03: the sender of payment `pay` calls send again with the same PaymentId while the library
+	/// still lists that payment
+	Resend { pay: usize },
 	Sweep { n: usize },
 	Reorg { depth: u32, readmit: bool, new_len: u32 },
 	Settle,
@@ -212,6 +215,7 @@ impl Action {
 			Action::ArmCrash { .. } => "ArmCrash",
 			Action::Restart { .. } => "Restart",
 			Action::Abandon { .. } => "Abandon",
+			Action::Resend { .. } => "Resend",
 			Action::Sweep { .. } => "Sweep",
 			Action::Reorg { .. } => "Reorg",
 			Action::Settle => "Settle",
@@ -255,7 +259,7 @@ impl Action {
 			Action::Deliver { to, .. } | Action::Tamper { to, .. } | Action::Corrupt { to, .. } => *to,
 			Action::Disconnect { a, .. } | Action::Reconnect { a, .. } => *a,
 			Action::Send { from, .. } => *from,
-			Action::Mine { .. } | Action::Reorg { .. } | Action::Settle | Action::Liquidate | Action::LiqPlan { .. } => 99,
+			Action::Mine { .. } | Action::Reorg { .. } | Action::Settle | Action::Liquidate | Action::LiqPlan { .. } | Action::Resend { .. } => 99,
 		}
 	}
 }
@@ -2596,6 +2600,7 @@ impl World {
 			Action::ArmCrash { n, at, after } => self.do_arm_crash(*n, *at, *after),
 			Action::Restart { n, style } => self.do_restart(*n, *style),
 			Action::Abandon { n, pay } => self.do_abandon(*n, *pay),
+			Action::Resend { pay } => self.do_resend(*pay),
 			Action::Sweep { n } => self.do_sweep(*n),
 			Action::Reorg { depth, readmit, new_len } => {
 				let r = self.do_reorg(*depth, *readmit, *new_len);
@@ -2648,6 +2653,74 @@ impl World {
 			}
 		}
 		did
+	}
+
+	/// C03: "while a payment is pending, a second send with the same payment id is refused".
+	pub fn do_resend(&mut self, pay: usize) -> bool {
+		use lightning::ln::channelmanager::RecentPaymentDetails as R;
+		use lightning::ln::outbound_payment::RetryableSendFailure;
+		if pay >= self.pays.len() {
+			return false;
+		}
+		let p = self.pays[pay].clone();
+		let n = p.from;
+		let mgr = match self.mgr(n) {
+			Some(m) => m,
+			None => return false,
+		};
+		let listed = mgr.list_recent_payments().iter().any(|r| match r {
+			R::Pending { payment_id, .. } | R::Fulfilled { payment_id, .. } | R::Abandoned { payment_id, .. } => *payment_id == p.id,
+			_ => false,
+		});
+		if !listed {
+			return false;
+		}
+		// any well-formed route will do: one hop over a usable channel of the sender
+		let usable = mgr.list_usable_channels();
+		let (scid, peer_id) = match usable.iter().find_map(|d| d.short_channel_id.map(|s| (s, d.counterparty.node_id))) {
+			Some(x) => x,
+			None => return false,
+		};
+		let amt = 1_000_000u64;
+		let hop = RouteHop {
+			pubkey: peer_id,
+			node_features: mgr.node_features(),
+			short_channel_id: scid,
+			channel_features: mgr.channel_features(),
+			fee_msat: amt,
+			cltv_expiry_delta: FINAL_CLTV,
+			maybe_announced_channel: true,
+		};
+		let mut route_params = RouteParameters::from_payment_params_and_value(
+			PaymentParameters::from_node_id(peer_id, FINAL_CLTV),
+			amt,
+		);
+		route_params.max_total_routing_fee_msat = None;
+		let route = Route { paths: vec![Path { hops: vec![hop], blinded_tail: None }], route_params };
+		let onion = RecipientOnionFields::secret_only(p.secret, amt);
+		self.out.bump("oracle:C03-8 second send with a listed payment id is refused");
+		match catch(|| mgr.send_payment_with_route(route, p.hash, onion, p.id)) {
+			Ok(Err(RetryableSendFailure::DuplicatePayment)) => {},
+			Ok(Ok(())) => {
+				self.violate(
+					"C03",
+					"C03-8 second send with the id of a listed payment accepted",
+					format!("node {} pay {}: send_payment with the PaymentId of a payment the node still lists returned Ok", n, pay),
+				);
+				self.dead = true;
+			},
+			Ok(Err(e)) => {
+				self.violate(
+					"C03",
+					"C03-8 second send with the id of a listed payment accepted",
+					format!("node {} pay {}: send_payment with the PaymentId of a payment the node still lists returned {:?} instead of DuplicatePayment", n, pay, e),
+				);
+				self.dead = true;
+			},
+			Err((m, l)) => self.library_panic("Resend", m, l),
+		}
+		self.after_node_action(n);
+		true
 	}
 
 	pub fn do_abandon(&mut self, n: usize, pay: usize) -> bool {
